@@ -54,7 +54,7 @@ def sha(s):
 # ----------------------------------------------------------------------------- directives
 
 DIRECTIVE_RE = re.compile(r'/\*@(\s*extract(?:-stmts)?\b.*?)@\*/', re.S)
-SECTION_RE = re.compile(r'^(requires|ensures|decreases|loop\s+\d+|closure\s+\d+|before\s+`.*`|after\s+`.*`|opens_invariants.*|no_unwind.*)\s*$')
+SECTION_RE = re.compile(r'^(requires|ensures|decreases|loop\s+\d+|closure\s+\d+|before\s+`.*`|after\s+`.*`|blockend\s+`.*`|opens_invariants.*|no_unwind.*)\s*$')
 
 
 class Directive:
@@ -115,7 +115,7 @@ def parse_directive(text, line):
             d.loops[int(cur.split()[1])] = body
         elif cur.startswith('closure'):
             d.closures[int(cur.split()[1])] = body
-        elif cur.startswith('before') or cur.startswith('after'):
+        elif cur.startswith('before') or cur.startswith('after') or cur.startswith('blockend'):
             where, pat = cur.split(None, 1)
             d.inserts.append((where, pat.strip().strip('`'), body))
         cur, buf = None, []
@@ -745,7 +745,23 @@ def render_item(repo_root, d, log, cache):
         if pick is not None and pick >= len(ms):
             raise LostAnchor(f'{what}: anchor `{pat}` occurrence {pick} not found ({len(ms)} matches)')
         mm_ = ms[pick or 0]
-        off = mm_.start() if where == 'before' else mm_.end()
+        if where == 'blockend':
+            # just before the closing brace of the innermost block containing the match
+            toks_ = rustsrc.tokenize(body)
+            opens_ = []
+            off = None
+            for ti_, tk_ in enumerate(toks_):
+                if tk_.kind == 'punct' and tk_.text == '{':
+                    opens_.append(ti_)
+                elif tk_.kind == 'punct' and tk_.text == '}':
+                    oi_ = opens_.pop()
+                    if toks_[oi_].start <= mm_.start() and tk_.start >= mm_.end():
+                        off = tk_.start
+                        break
+            if off is None:
+                raise LostAnchor(f'{what}: no enclosing block for `{pat}`')
+        else:
+            off = mm_.start() if where == 'before' else mm_.end()
         splices.append((off, '\n' + txt.rstrip() + '\n'))
     for off, txt in sorted(splices, key=lambda x: -x[0]):
         body = body[:off] + txt + body[off:]
